@@ -271,6 +271,9 @@ func (b *Browser) Do(r Req) *Exchange {
 		buf.Write(r.Body)
 	}
 	b.w.Log.Begin(ex)
+	b.w.Up.mu.Lock()
+	b.w.Up.PendingTamper = "" // a tamper fault whose request never arrived (rejected as malformed) must not taint the next arrival
+	b.w.Up.mu.Unlock()
 	arr0 := b.w.Up.Count()
 	fired0 := b.w.Net.FiredOn("browser>")
 	defer func() {
